@@ -1,5 +1,6 @@
 (* C09 driver.
-   E <vec> <cfgfile> <b64set> <ok> <rest> <n> { <kind> <name> <path> <envhand> <envobs> <def> <env> <jfile> <jb64> <final> <oracle> }*n
+   E <vec> <cfgfile> <b64set> <ok> <rest> <help> <n>
+     { <kind> <group> <goname> <tag> <hname> <hdef> <bound> <usage> <init> <envhand> <envobs> <env> <jfile> <jb64> <final> <oracle> }*n
    hex fields; "-" empty string, "~" none, "." empty list; lists comma separated; oracle = text:canon pairs, canon "!" = error *)
 let toks_of s = if s = "." then [] else List.map bytes_of_hex (String.split_on_char ',' s)
 let opt_of s = if s = "~" then None else Some (bytes_of_hex s)
@@ -15,27 +16,32 @@ let oracle_of_field s =
 let rec take_fields n l acc =
   if n = 0 then List.rev acc else
   match l with
-  | kind :: name :: path :: envhand :: envobs :: def :: env :: jfile :: jb64 :: final :: oracle :: r ->
-      let fo = { fo_flag = { fname = bytes_of_hex name; fpath = bytes_of_hex path; fkind = kind_of kind; fdef = bytes_of_hex def };
+  | kind :: group :: goname :: tag :: hname :: hdef :: bound :: usage :: init :: envhand :: envobs :: env :: jfile :: jb64 :: final :: oracle :: r ->
+      let fo = { fo_kind = kind_of kind; fo_group = bytes_of_hex group; fo_goname = bytes_of_hex goname; fo_tag = bytes_of_hex tag;
+                 fo_hname = bytes_of_hex hname; fo_hdef = bytes_of_hex hdef; fo_bound = (bound = "1"); fo_usage = bytes_of_hex usage;
+                 fo_init = bytes_of_hex init;
                  fo_envhand = bytes_of_hex envhand; fo_envobs = bytes_of_hex envobs; fo_env = opt_of env;
                  fo_jfile = opt_of jfile; fo_jb64 = opt_of jb64; fo_final = opt_of final; fo_oracle = oracle_of_field oracle } in
       take_fields (n - 1) r (fo :: acc)
   | _ -> failwith "field block"
 let names l = String.concat "," (List.map hex_of_bytes l)
 let () =
-  let cases = ref 0 and specfail = ref 0 and mismatch = ref 0 and fields = ref 0 in
+  let cases = ref 0 and specfail = ref 0 and mismatch = ref 0 and fields = ref 0 and skipped = ref 0 and failed = ref 0 in
   iter_lines Sys.argv.(1) (fun line ->
     match split_ws line with
-    | "E" :: vec :: cfgfile :: b64set :: ok :: rest :: n :: blocks ->
+    | "E" :: vec :: cfgfile :: b64set :: ok :: rest :: help :: n :: blocks ->
         incr cases;
         let fos = take_fields (int_of_string n) blocks [] in
         fields := !fields + List.length fos;
-        let v = check_case fos (toks_of vec) (opt_of cfgfile) (b64set = "1") (ok = "1") (toks_of rest) in
+        let v = check_case fos (toks_of vec) (opt_of cfgfile) (b64set = "1") (ok = "1") (toks_of rest)
+                  (if help = "~" then None else Some (help = "1")) in
+        skipped := !skipped + int_of_n v.v_skipped;
+        if ok <> "1" then incr failed;
         if not (verdict_spec_ok v) then begin
           incr specfail;
-          Printf.printf "SPECFAIL %s wrong-winner=%s wrong-env-name=%s\n" line (names v.v_spec_fail) (names v.v_env_fail) end
+          Printf.printf "SPECFAIL %s wrong-winner=%s wrong-env-name=%s wrong-tag-split=%s\n" line (names v.v_spec_fail) (names v.v_env_fail) (names v.v_tag_fail) end
         else if not (verdict_ok v) then begin
           incr mismatch;
           Printf.printf "MISMATCH %s model-differs=%s outcome=%b rest=%b parsers=%b\n" line (names v.v_model_fail) v.v_outcome v.v_rest v.v_parsers end
     | _ -> ());
-  Printf.printf "STATS cases=%d specfail=%d mismatch=%d drift=0 fields=%d\n" !cases !specfail !mismatch !fields
+  Printf.printf "STATS cases=%d specfail=%d mismatch=%d drift=0 fields=%d skipped=%d failed_parses=%d\n" !cases !specfail !mismatch !fields !skipped !failed
